@@ -129,10 +129,42 @@ def check_seq(values):
                             else:
                                 if ks != got_ids or its != [(i, i) for i in got_ids]:
                                     bad('sort-detaches-keys', f'keys {ks} items {its} examples {got_ids}', **cfg)
+    # histories: several sort / groupby calls on ONE dataset object (results must not depend on earlier calls)
+    calls = [('sort', True, False), ('sort', True, True), ('sort', False, False), ('sort', False, True), ('groupby',)]
+    for backing in ('raw', 'copy'):
+        for hist in itertools.product(calls, repeat=2):
+            if n == 0:
+                break
+            st['states'] += 1
+            ds = build(values, backing)
+            for step, call in enumerate(hist):
+                st['transitions'] += 1
+                cfg = dict(backing=backing, history=[list(c) for c in hist], step=step)
+                try:
+                    if call[0] == 'groupby':
+                        groups = ds.groupby(sort_value)
+                        got = {g: [ex['id'] for ex in d] for g, d in groups.items()}
+                        want = {}
+                        for i in ids:
+                            want.setdefault(val_of[i], []).append(i)
+                        if got != want:
+                            bad('groupby-depends-on-earlier-calls', f'groups {got}, expected {want}', **cfg)
+                        continue
+                    _, use_key_fn, reverse = call
+                    out = ds.sort(sort_value, reverse=reverse) if use_key_fn else ds.sort(reverse=reverse)
+                    got_ids = [ex['id'] for ex in out]
+                except Exception as e:      # noqa: BLE001
+                    bad(f'history-raises/{type(e).__name__}', str(e)[:80], **cfg)
+                    break
+                sk = [val_of[i] for i in got_ids] if use_key_fn else got_ids
+                mono = all((a >= b) if reverse else (a <= b) for a, b in zip(sk, sk[1:]))
+                if sorted(got_ids) != sorted(ids) or not mono:
+                    bad('sort-depends-on-earlier-calls', f'call {call} after {list(hist[:step])} gave sort keys {sk}', **cfg)
+                    break
     # groupby: every assignment of group ids
-    gid_alphabet = ['a', 1, (0, 1)]
+    gid_alphabet = [None, 0, 'a', (0, 1)]
     if n <= 4 or True:
-        for assign in itertools.product(range(3), repeat=n):
+        for assign in itertools.product(range(len(gid_alphabet)), repeat=min(n, 5)):
             st['states'] += 1
             import lazy_dataset
             exs = {KEYS[i]: {'g': a, 'id': KEYS[i], 'p': Payload(i)} for i, a in enumerate(assign)}
